@@ -509,11 +509,20 @@ class Plucker(SMUserList):
         If ``X`` is an array with 3 rows, the test is performed on every column and
         an array of booleans is returned.
         """
+        pp = self.pp
+        uw = self.uw
+
+        def online(p):
+            # distance of the point from the line, relative to the magnitude of the
+            # data: the tolerance is in units of eps
+            scale = max(1.0, np.linalg.norm(p), np.linalg.norm(pp))
+            return np.linalg.norm(np.cross(p - pp, uw)) < tol * scale
+
         if base.isvector(x, 3):
             x = base.getvector(x)
-            return np.linalg.norm( np.cross(x - self.pp, self.w) ) < tol
+            return online(x)
         elif base.ismatrix(x, (3,None)):
-            return [np.linalg.norm(np.cross(_ - self.pp, self.w)) < tol for _ in x.T]
+            return [online(_) for _ in x.T]
         else:
             raise ValueError('bad argument')
 
